@@ -23,7 +23,8 @@ SeqOf(x) == "Seq" \o x
 (* packaging sorts: Pair = (Int, Int); Rec = {k1: Int, k2: Int}; Nest = (Pair, Int);  *)
 (* RecP = {k1: Pair, k2: Int}; PS = (SeqJet, Int)                                     *)
 PackSorts == {"Pair", "Rec", "Nest", "RecP", "PS", "PSP", "RecS", "RecI"}   \* RecI = {0: Int, 1: Int}   \* PSP = (SeqPair, Int); RecS = {k1: PS, k2: Pair}
-ElemSorts == IF Fam = "e2eb" THEN {"Evt", "Jet", "Trk", "Int", "SeqInt", "SeqSeqInt"}
+ElemSorts == IF Fam = "fused" THEN {"Evt", "Jet", "Int"}
+             ELSE IF Fam = "e2eb" THEN {"Evt", "Jet", "Trk", "Int", "SeqInt", "SeqSeqInt"}
              ELSE IF Fam = "mdp" THEN {"Evt", "Jet", "Int", "PS", "RecS"}      \* MetaData wrappers inside packaged values
              ELSE IF Fam = "chainp" THEN {"Evt", "Jet", "Int", "Pair", "PSP", "SeqInt"}   \* nested packaging and
                                                         \* nested result sequences, few sorts, deep
@@ -40,7 +41,7 @@ Fields == { <<"Evt", "met", "Int">>, <<"Evt", "n", "Int">>, <<"Evt", "jets", "Se
 
 (* ------------------------------------------------------------------ *)
 (* production families                                                *)
-Binders == CASE Fam \in {"fuse1", "chain1", "md1", "chainx", "chainp", "mdp"} -> {"x"}
+Binders == CASE Fam \in {"fuse1", "chain1", "md1", "chainx", "chainp", "mdp", "fused"} -> {"x"}
              [] Fam = "helper" -> {"a", "t", "a_1"}     \* (a_1: what an inner binder a is renamed to when it collides)
              [] Fam = "e2eb" -> {"x", "x_1"}
              [] Fam = "corea" -> {"arg_0", "arg_1", "arg_e"}     \* names the simplifier itself generates / names that look alike
@@ -50,6 +51,7 @@ Enabled(prod) ==
     CASE Fam = "core"  -> prod \in {"Select", "Where", "SelectMany", "First", "Count", "Beta",
                                     "Add", "Cmp", "TupProj", "True"}
       [] Fam = "fuse"  -> prod \in {"Select", "Where", "SelectMany", "First", "Count", "Cmp", "Add"}
+      [] Fam = "fused" -> prod \in {"Select", "Where", "SelectMany", "OpDef", "Count"}     \* (comparisons are zero-cost leaves here)
       [] Fam = "corea" -> prod \in {"Select", "Where", "SelectMany", "First", "Count", "Cmp", "Add", "Beta"}
       [] Fam = "fuse1" -> prod \in {"Select", "Where", "SelectMany", "First", "Count", "Cmp", "Add",
                                     "Beta", "TupProj", "DictProj", "If", "MethArgs", "True"}
@@ -134,7 +136,7 @@ Leaves(s, ns, ss) ==
       \cup (IF s = "Int" THEN {IntC(1)} ELSE {})
       \cup (IF s = "Int" /\ Fam \in {"e2e", "e2et"} THEN {Name("CUT")} ELSE {})        \* a captured module-level constant
       \cup (IF s = "Bool" /\ Enabled("True") THEN {BoolC(TRUE)} ELSE {})
-      \cup (IF s = "Bool" /\ (Fam = "comp" \/ Rand)      \* (random walks must never dead-end on a Boolean hole)
+      \cup (IF s = "Bool" /\ (Fam \in {"comp", "fused"} \/ Rand)      \* (random walks must never dead-end on a Boolean hole)
             THEN {Cmp(">", f, IntC(1)) : f \in VarsOf("Int", ns, ss) \cup FieldRefs("Int", ns, ss)} ELSE {})
 
 Split2(r) == {<<i, r - i>> : i \in 0..r}
@@ -165,6 +167,17 @@ NonLeaf(h) ==
           OpProd("Where", s, Elem(s), "Bool", r, ns, ss) ELSE {}) \cup
       (IF s \in SeqSorts /\ Enabled("SelectMany") THEN
           UNION {OpProd("SelectMany", SeqOf(y), y, s, r, ns, ss) : y \in ElemSorts \ {"Int"}}
+       ELSE {}) \cup
+      (* ---- operator lambdas with a further, defaulted parameter: Op(src, lambda x, k=<default>: body); the  ---- *)
+      (* ---- default is an expression of the ENCLOSING scope                                                  ---- *)
+      (IF s \in SeqSorts /\ Enabled("OpDef") THEN
+          UNION {UNION {{Fn(o[1], <<Hole(SeqOf(y), sp[1], ns, ss),
+                                  T("lam", "", 1, <<x, "k">>,
+                                    <<Hole(o[2], sp[2], ns \o <<x, "k">>, ss \o <<SortT(y), SortT("Int")>>),
+                                      Hole("Int", 0, ns, ss)>>)>>) :
+                          sp \in Split2(r), x \in Binders} :
+                    o \in {<<"Select", Elem(s)>>} \cup (IF y = Elem(s) THEN {<<"Where", "Bool">>} ELSE {})
+                           \cup (IF y # "Int" THEN {<<"SelectMany", s>>} ELSE {})} : y \in ElemSorts}
        ELSE {}) \cup
       (* ---- comprehensions: [elt for x in iter if c1 if c2] and generator expressions ---- *)
       (IF s \in SeqSorts /\ Enabled("Comp") THEN
